@@ -81,6 +81,9 @@ async fn run(mut s: Sim, mut rng: Rng, _len: usize) -> Sim {
             let ix = s.rd_finalize_rewards(&g.payer, e); s.op(tx(vec![ix])).await;
             // the rogue swap program buys the SOL with 500 2Z (transfer_checked + WithdrawSol signed by its own authority)
             let src = K::Ata(b(&g.buyer), b(&K::Mint));
+            // C06: the same purchase with the TransferChecked-shaped instruction sent to a look-alike program instead of SPL Token (no 2Z
+            // moves): the withdrawal must be refused because its sibling is not an SPL Token instruction
+            { let ix = s.rogue_buy(1, &src, &g.buyer, &g.users[8], 500, debt).with_key(8, &K::Rogue(2)); s.op(tx(vec![ix])).await; }
             // C06: the same purchase with the 2Z paid somewhere else (right mint, wrong destination: the journal's / the reserve's own
             // 2Z account, the buyer's own account), and with a short payment announced; each must be refused
             for wrong in [K::Tok2z(b(&K::RdJournal)), K::Tok2z(b(&K::RdConfig)), src.clone()] {
